@@ -31,6 +31,8 @@ func main() {
 		runFacts(os.Args[2:])
 	case "apply":
 		runApply(os.Args[2:])
+	case "wal":
+		runWal(os.Args[2:])
 	default:
 		fmt.Fprintln(os.Stderr, "unknown engine", os.Args[1])
 		os.Exit(2)
